@@ -104,6 +104,7 @@ type Unit struct {
 	isInit bool
 	errs  []string
 	seenAsserts map[string]bool
+	wfSeen map[string]bool
 }
 
 type Obligation struct {
@@ -123,6 +124,7 @@ type Obligation struct {
 	Time    float64
 	Model   string
 	Trivial bool
+	Vacuity bool // expected to be undischarged: discharged means the context is contradictory
 	Restricted bool // goal checked under a known-finding restriction
 	KFWhat  string
 }
